@@ -1,6 +1,6 @@
 (* C08 -- MPMC channel: each value is delivered exactly once, or handed back, or destroyed
    exactly once; never lost, never duplicated.  Statements only. *)
-From FI Require Import Base Mpmc MpmcSpec MpmcProofs.
+From FI Require Import Base Mpmc MpmcSpec MpmcProofs MpmcDropsProofs.
 From Coq Require Import Permutation.
 
 (* For every contract-respecting history with uniquely tagged values (any number of send and
@@ -31,6 +31,16 @@ Theorem C08_drops_only_where_allowed : forall kr ks c s o v,
   (exists f, o = DropSend f /\ s_val (gets s f) = Some v) \/ o = DropReceiverClear \/ o = Teardown.
 Proof. exact drops_only_where_allowed. Qed.
 
+(* The same on the observable trace of encoded operations with whole-call handle drops (the
+   trace the harness produces): the placement monitor -- destruction only with the carrying
+   send future, by the drop of the LAST receiver handle (receiver handles counted from the
+   clone / drop operations of the trace), or with the channel -- holds for every
+   contract-respecting history with uniquely tagged values. *)
+Theorem C08_drops_placed : forall kr ks c sh ls,
+  mlegal_run (init kr ks c) ls = true -> NoDup (minjected ls) ->
+  drops_placed_ok sh ks (mtrace (init kr ks c) ls) = true.
+Proof. exact drops_placed_holds. Qed.
+
 Example C08_witness :
   let ops := [CreateSend 0 1%N; PollSend 0 64; CreateSend 1 2%N; PollSend 1 66; CreateRecv 0; PollRecv 0 0;
               Close; PollSend 1 66; Teardown] in
@@ -42,3 +52,4 @@ Proof. vm_compute. repeat split; try reflexivity. repeat constructor; simpl; int
 Print Assumptions C08_conservation.
 Print Assumptions C08_in_flight.
 Print Assumptions C08_drops_only_where_allowed.
+Print Assumptions C08_drops_placed.
